@@ -78,7 +78,7 @@ def leb_correspondence(ck):
         m = re.search(r'^[^\n;{}]*\b%s\b\s*=[^;]*;' % cst, src, flags=re.M)
         if m:
             parts.append(m.group(0))
-    for fn in ('svt_aom_uleb_size_in_bytes', 'svt_aom_uleb_encode'):
+    for fn in ('svt_aom_uleb_size_in_bytes', 'svt_aom_uleb_encode', 'write_uleb_obu_size', 'obu_mem_move'):
         t = slicer.slice_function(LEB_SRC, fn)
         if t is None:
             ck.obligation('slice %s from %s' % (fn, LEB_SRC), False, 'definition not found')
@@ -92,14 +92,14 @@ def leb_correspondence(ck):
     if not (ok and okm):
         return
     nrnd = 3000 if ck.tier == 'quick' else 60000
-    tot = dict(n=0, bad=0, size=0, encode=0, rejected=0, decode=0, decode_len8=0)
+    tot = dict(n=0, bad=0, size=0, encode=0, rejected=0, decode=0, decode_len8=0, obu=0)
     for seed in ([ck.seed, ck.seed + 101] if ck.tier == 'quick' else [ck.seed + 101 * i for i in range(6)]):
         rc, out = sh('%s %d %d > %s/cases.txt && %s < %s/cases.txt' % (os.path.join(hd, 'leb'), seed, nrnd, hd, mbin, hd), timeout=900)
-        m = re.search(r'DONE n=(\d+) bad=(\d+) size=(\d+) encode=(\d+) rejected=(\d+) decode=(\d+) decode_len8=(\d+)', out)
+        m = re.search(r'DONE n=(\d+) bad=(\d+) size=(\d+) encode=(\d+) rejected=(\d+) decode=(\d+) decode_len8=(\d+) obu=(\d+)', out)
         if not m:
             ck.obligation('LEB128 correspondence run completed (seed %d)' % seed, False, out[-300:])
             continue
-        for k_, v_ in zip(('n', 'bad', 'size', 'encode', 'rejected', 'decode', 'decode_len8'), m.groups()):
+        for k_, v_ in zip(('n', 'bad', 'size', 'encode', 'rejected', 'decode', 'decode_len8', 'obu'), m.groups()):
             tot[k_] += int(v_)
         flags = [l for l in open(os.path.join(hd, 'cases.txt')) if 'OVERWRITE' in l or 'ON_ERROR' in l]
         diffs = [l for l in out.split('\n') if l.startswith('DIFF')]
@@ -108,13 +108,13 @@ def leb_correspondence(ck):
                          dict(harness='harness/unit/leb_harness.c', seed=seed, line=flags[0].strip(), sliced=os.path.join(hd, 'leb_sliced.inc')), True)
         if diffs:
             # which property does the real code break on this input?  (round trip / minimal size / domain) decided on the C results alone
-            ck.violation('leb128_model_differs', 'the library\'s LEB128 routine and its C-level model (Leb128C.v: c02_c_leb128_roundtrip, c02_c_uleb_encode_accepts_iff, c02_c_uleb_size_minimal) differ: ' + diffs[0][:300],
+            ck.violation('leb128_model_differs', 'the library\'s LEB128 routine and its C-level model (Leb128C.v: c02_c_leb128_roundtrip, c02_c_uleb_encode_accepts_iff, c02_c_uleb_size_minimal, c02_c_finish_obu_layout) differ: ' + diffs[0][:300],
                          dict(harness='harness/unit/leb_harness.c', seed=seed, nrnd=nrnd, first_differences=diffs[:10], sliced=os.path.join(hd, 'leb_sliced.inc'),
                               replay='%s %d %d | %s' % (os.path.join(hd, 'leb'), seed, nrnd, mbin)), True)
     ck.obligation('LEB128: real routines == C-level model on every case', tot['bad'] == 0 and tot['n'] > 0, 'differences: %d of %d' % (tot['bad'], tot['n']))
     ck.evals += tot['n']
     ck.cov['leb128_correspondence'] = dict(cases=tot['n'], size_calls=tot['size'], encode_calls=tot['encode'], encode_refused=tot['rejected'], decode_calls=tot['decode'],
-                                           decode_stopped_at_8_bytes=tot['decode_len8'], generator='size-class boundaries 128^k-1,128^k,128^k+1 for k=0..9 x space 0..11; 2^56-1, 2^56, 2^63, 2^64-1, space SIZE_MAX; random values of every bit length 0..64; decoder on encoder output + random tail at byte offsets 0..7 and on non-encoder byte strings (unterminated runs, over-long zero encodings)')
+                                           decode_stopped_at_8_bytes=tot['decode_len8'], obu_closings=tot['obu'], generator='size-class boundaries 128^k-1,128^k,128^k+1 for k=0..9 x space 0..11; 2^56-1, 2^56, 2^63, 2^64-1, space SIZE_MAX; random values of every bit length 0..64; decoder on encoder output + random tail at byte offsets 0..7 and on non-encoder byte strings (unterminated runs, over-long zero encodings); obu_mem_move + write_uleb_obu_size on random buffers with payloads of 0,1,2,126..129,255,256,16382..16385 and random sizes below 20000, headers of 1 and 2 bytes')
 
 
 def run(ck):
